@@ -844,7 +844,7 @@ func (e *Engine) mkSub(st *State, t types.Type, i int, base string) string {
 func (e *Engine) mkERef(st *State, et types.Type, arr, idx string) string {
 	name := e.d.ERef(et)
 	r := app(name, arr, idx)
-	e.fact(st, "eref:"+r, fmt.Sprintf("(and (= (%s_a %s) %s) (= (%s_i %s) %s) (not (= %s rnil)))", name, r, arr, name, r, idx, r))
+	e.fact(st, "eref:"+r, fmt.Sprintf("(and (= (%s_a %s) %s) (= (%s_i %s) %s) (not (= %s rnil)) (= (stamp %s) (stamp %s)))", name, r, arr, name, r, idx, r, r, arr))
 	return r
 }
 
